@@ -1006,16 +1006,23 @@ def r15_10(ctx, prog, crate):
                   "Divan::%s_count sets a counter of type %s, expected %sCount via self.counter(count.into())" % (snake(k), tys, k), m.where(0))
     for fn, callee, recv in (("counter", D + "counter_mut", None), ("counter_mut", "counter::collection::CounterSet::insert", ("bench_options", "counters"))):
         m = prog.body(D + fn, crate)
+        if fn == "counter_mut" and m is None:
+            continue        # the private helper is optional: Divan::counter may insert into the set itself (accepted below)
         if not ctx.anchor("R15.10", "Divan::" + fn, 1 if m else 0, 1):
             continue
         ctx.saw(m)
         sums = PathEval(m).run()
+        if fn == "counter" and sums and len(sums) == 1 and [c[0] for c in sums[0].calls] == ["counter::collection::CounterSet::insert"]:
+            callee, recv = "counter::collection::CounterSet::insert", ("bench_options", "counters")     # inserted in place
         ok = bool(sums) and len(sums) == 1 and [c[0] for c in sums[0].calls] == [callee]
         if ok:
             c = sums[0].calls[0]
-            ok = c[1][1] == ("arg", 2, ()) and (c[1][0] == ("arg", 1, ()) or (c[1][0][0] == "ptr" and c[1][0][1][0] == 1 and (recv is None or c[1][0][1][1] == recv))) and \
-                (sums[0].ret in (("arg", 1, ()), ("ptr", (1, ()))))
-            if recv is not None:
+            ok = c[1][1] == ("arg", 2, ()) and (c[1][0] == ("arg", 1, ()) or (recv is not None and c[1][0] == ("arg", 1, recv)) or
+                                                (c[1][0][0] == "ptr" and c[1][0][1][0] == 1 and (recv is None or c[1][0][1][1] == recv))) and \
+                (sums[0].ret in (("arg", 1, ()), ("ptr", (1, ()))) or (sums[0].ret[0] in ("after", "upd") and "1" in str(sums[0].ret)))
+            if recv is not None and c[1][0] == ("arg", 1, recv):
+                pass        # by-value self: the field itself
+            elif recv is not None:
                 ok = ok and c[1][0][0] == "ptr" and c[1][0][1] == (1, recv) and all(k_[1][:2] == recv for k_ in sums[0].mem if isinstance(k_, tuple) and k_[0] == 1)
         ctx.check(ok, "R15.10", ["builder", fn, "forwards-the-counter"], "Divan::%s does not hand its counter to %s and return self (calls %s)" % (fn, callee, [c[0] for c in sums[0].calls] if sums else "?"), m.where(0))
     ctx.anchor("R15.10", "per-kind counter builders", n, 4)
